@@ -373,13 +373,7 @@ Proof.
   rewrite E, last_last. rewrite nth_skipn'. f_equal. lia.
 Qed.
 
-(* ---------- fetch returns whole groups when no cut falls inside a transaction ---------- *)
-Definition cut_cond (k : nat) (X : list entry) : Prop :=
-  match nth_error X (k - 1), nth_error X k with
-  | Some x, Some y => eseq x <> eseq y
-  | _, _ => True
-  end.
-
+(* ---------- fetch returns whole groups ---------- *)
 Lemma filter_all_id : forall (f : entry -> bool) l, (forall e, In e l -> f e = true) -> filter f l = l.
 Proof.
   intros f l. induction l as [|x l IH]; intros H; [reflexivity|]. cbn [filter].
@@ -410,43 +404,57 @@ Proof.
         apply IHg. intros y Hy. apply Cg. right. exact Hy.
 Qed.
 
-Lemma firstn_groups : forall gs s k, gwf s gs -> (0 < k)%nat -> cut_cond k (concat gs) -> gs <> [] ->
-  exists n, (1 <= n <= length gs)%nat /\ firstn k (concat gs) = concat (firstn n gs).
+Lemma same_seq_const : forall s X Y, const_seq s X ->
+  (forall y, hd_error Y = Some y -> eseq y <> s) -> same_seq s (X ++ Y) = X.
 Proof.
-  induction gs as [|g gs IH]; intros s k W Hk HC Hne; [congruence|].
-  destruct W as (Hg & Cg & W). cbn [concat] in *.
-  destruct (Nat.lt_ge_cases k (length g)) as [Lt|Ge].
-  - exfalso. unfold cut_cond in HC.
-    rewrite !nth_error_app1 in HC by lia.
-    destruct (nth_error g (k - 1)) as [x|] eqn:E1; [|apply nth_error_None in E1; lia].
-    destruct (nth_error g k) as [y|] eqn:E2; [|apply nth_error_None in E2; lia].
-    apply nth_error_In in E1, E2. unfold const_seq in Cg. rewrite Forall_forall in Cg.
-    apply HC. rewrite (Cg _ E1), (Cg _ E2). reflexivity.
-  - rewrite firstn_app. rewrite (firstn_all2 g) by exact Ge.
-    destruct (Nat.eq_dec (k - length g) 0) as [Z|NZ].
-    + rewrite Z. cbn [firstn]. exists 1%nat. cbn [length firstn concat]. split; [lia|reflexivity].
-    + destruct gs as [|g2 gs'].
-      * cbn [concat]. rewrite firstn_nil. exists 1%nat. cbn [length firstn concat]. split; [lia|reflexivity].
-      * destruct (IH (s + 1) (k - length g)%nat W) as (n & Hn & En); [lia| |discriminate|].
-        -- unfold cut_cond in *.
-           assert (Lg : (1 <= length g)%nat) by (destruct g; [congruence|cbn; lia]).
-           rewrite !nth_error_app2 in HC by lia.
-           replace (k - 1 - length g)%nat with (k - length g - 1)%nat in HC by lia. exact HC.
-        -- exists (S n). cbn [length firstn concat] in *. split; [lia|]. rewrite En. reflexivity.
+  induction X as [|x X IH]; intros Y C H.
+  - destruct Y as [|y Y]; [reflexivity|]. cbn [app same_seq].
+    specialize (H y eq_refl). apply N.eqb_neq in H. rewrite H. reflexivity.
+  - cbn [app same_seq]. rewrite (Forall_inv C), N.eqb_refl. f_equal.
+    apply IH; [exact (Forall_inv_tail C)|exact H].
 Qed.
 
-Lemma seqs_upto_in : forall n s, 1 <= s <= N.of_nat n -> In s (seqs_upto n).
+Lemma const_last : forall s (g : list entry) d, const_seq s g -> g <> [] -> eseq (last g d) = s.
 Proof.
-  induction n as [|n IH]; intros s H; [lia|]. cbn [seqs_upto]. apply in_or_app.
-  destruct (N.eq_dec s (N.of_nat (S n))) as [E|NE]; [right; left; symmetry; exact E|].
-  left. apply IH. lia.
+  intros s g d C H. unfold const_seq in C. rewrite Forall_forall in C. apply C. apply last_in. exact H.
 Qed.
 
-Lemma cut_ok_cond : forall X, cut_ok X = true -> cut_cond MaxFetch X.
+(* the response cut: the first k entries extended to the end of their last number are whole groups *)
+Lemma cut_groups : forall gs s k, gwf s gs -> (0 < k)%nat -> gs <> [] ->
+  exists n, (1 <= n <= length gs)%nat /\ cut_at k (concat gs) = concat (firstn n gs).
 Proof.
-  intros X H. unfold cut_ok, cut_cond in *.
-  destruct (nth_error X (MaxFetch - 1)); [|exact I]. destruct (nth_error X MaxFetch); [|exact I].
-  apply negb_true_iff, N.eqb_neq in H. exact H.
+  induction gs as [|g gs IH]; intros s k W Hk Hne; [congruence|].
+  destruct W as (Hg & Cg & W). cbn [concat].
+  assert (HR : forall y, hd_error (concat gs) = Some y -> eseq y <> s).
+  { intros y Hy. rewrite (hd_groups _ _ _ W Hy). lia. }
+  unfold cut_at.
+  destruct (Nat.le_gt_cases k (length g)) as [Le|Gt].
+  - (* the cut falls inside (or at the end of) the first group *)
+    exists 1%nat. split; [cbn [length]; lia|]. cbn [firstn concat]. rewrite app_nil_r.
+    rewrite firstn_app. replace (k - length g)%nat with 0%nat by lia. cbn [firstn]. rewrite app_nil_r.
+    rewrite skipn_app. replace (k - length g)%nat with 0%nat by lia. cbn [skipn].
+    assert (Cf : const_seq s (firstn k g)).
+    { unfold const_seq in *. rewrite Forall_forall in *. intros x Hx. apply Cg.
+      rewrite <- (firstn_skipn k g). apply in_or_app. left. exact Hx. }
+    assert (Nf : firstn k g <> []).
+    { destruct g; [congruence|]. destruct k; [lia|]. discriminate. }
+    rewrite (const_last s _ _ Cf Nf).
+    rewrite same_seq_const.
+    + apply firstn_skipn.
+    + unfold const_seq in *. rewrite Forall_forall in *. intros x Hx. apply Cg.
+      rewrite <- (firstn_skipn k g). apply in_or_app. right. exact Hx.
+    + exact HR.
+  - rewrite firstn_app, (firstn_all2 g) by lia. rewrite skipn_app, (skipn_all2 g) by lia. cbn [app].
+    destruct gs as [|g2 gs'].
+    + exists 1%nat. split; [cbn [length]; lia|]. cbn [concat firstn]. rewrite firstn_nil, skipn_nil, !app_nil_r.
+      reflexivity.
+    + destruct (IH (s + 1) (k - length g)%nat W ltac:(lia) ltac:(discriminate)) as (n & Hn & En).
+      unfold cut_at in En. exists (S n). split; [cbn [length] in *; lia|].
+      cbn [firstn concat]. rewrite <- En, <- app_assoc. f_equal. f_equal.
+      assert (NE : firstn (k - length g) (concat (g2 :: gs')) <> []).
+      { destruct W as (Hg2 & _). cbn [concat]. destruct g2; [congruence|].
+        destruct (k - length g)%nat eqn:E; [lia|]. discriminate. }
+      rewrite last_app_ne by exact NE. reflexivity.
 Qed.
 
 (* the primary's log as groups *)
@@ -466,26 +474,12 @@ Proof.
   intros [|g gs] W; [reflexivity|]. rewrite (last_seq_groups _ 1 W) by discriminate. lia.
 Qed.
 
-(* no response cut inside a transaction, for every start number (group-level form) *)
-Definition gcuts (gs : list group) : Prop :=
-  forall i, (i < length gs)%nat -> cut_cond MaxFetch (concat (skipn i gs)).
-
-Lemma cuts_ok_gcuts : forall gs, gwf 1 gs -> cuts_ok (concat gs) = true -> gcuts gs.
-Proof.
-  intros gs W H i Hi. unfold cuts_ok in H. rewrite forallb_forall in H.
-  rewrite (last_seq_log _ W) in H. unfold nlen in H. rewrite Nat2N.id in H.
-  assert (Hin : In (N.of_nat (S i)) (seqs_upto (length gs))) by (apply seqs_upto_in; lia).
-  specialize (H _ Hin).
-  apply cut_ok_cond in H. rewrite (from_seq_groups gs 1) in H by (assumption || lia).
-  replace (N.to_nat (N.of_nat (S i) - 1)) with i in H by lia. exact H.
-Qed.
-
-Lemma fetch_groups : forall p gs from, pwf p gs -> gcuts gs -> 1 <= from ->
+Lemma fetch_groups : forall p gs from, pwf p gs -> 1 <= from ->
   (nlen gs < from /\ fetch p from = FOk []) \/
   (from <= nlen gs /\ exists n, (1 <= n)%nat /\ (N.to_nat from - 1 + n <= length gs)%nat /\
      fetch p from = FOk (concat (seg (N.to_nat from - 1) n gs))).
 Proof.
-  intros p gs from W GC Hf. unfold fetch. rewrite (cur_live _ _ W).
+  intros p gs from W Hf. unfold fetch. rewrite (cur_live _ _ W).
   destruct (N.ltb_spec (nlen gs) from) as [L|L].
   - left. split; [exact L|]. rewrite orb_true_r. reflexivity.
   - right. split; [exact L|].
@@ -494,13 +488,12 @@ Proof.
     rewrite (from_seq_groups gs 1) by (apply (pw_gwf _ _ W) || lia).
     set (i := N.to_nat (from - 1)).
     assert (Hi : (i < length gs)%nat) by (unfold nlen in L; lia).
-    destruct (firstn_groups (skipn i gs) (1 + nlen (firstn i gs)) MaxFetch) as (n & Hn & En).
+    destruct (cut_groups (skipn i gs) (1 + nlen (firstn i gs)) MaxFetch) as (n & Hn & En).
     + apply gwf_skipn. exact (pw_gwf _ _ W).
     + unfold MaxFetch. lia.
-    + apply GC. exact Hi.
     + intros E. apply (f_equal (@length group)) in E. rewrite skipn_length in E. cbn in E. lia.
     + rewrite skipn_length in Hn. exists n. replace (N.to_nat from - 1)%nat with i by lia.
-      split; [lia|]. split; [lia|]. rewrite En. reflexivity.
+      split; [lia|]. split; [lia|]. unfold cut_fetch. rewrite En. reflexivity.
 Qed.
 
 (* ---------- the invariant of a replica against a live primary ---------- *)
@@ -696,10 +689,10 @@ Proof.
   split; [lia|]. split; [intros; lia|]. split; [exact L2|]. intros _. discriminate.
 Qed.
 
-Lemma tick_step : forall p gs r c, pwf p gs -> gcuts gs -> rinv gs r -> ~ stuck_last gs r ->
+Lemma tick_step : forall p gs r c, pwf p gs -> rinv gs r -> ~ stuck_last gs r ->
   step_ok p gs c r (tick c p r).
 Proof.
-  intros p gs r c W GC I NS. pose proof (pw_gwf _ _ W) as GW.
+  intros p gs r c W I NS. pose proof (pw_gwf _ _ W) as GW.
   pose proof (cur_live _ _ W) as CUR.
   destruct I as [C IM]. pose proof (conj C IM : rinv gs r) as I.
   assert (Hei : (ei r <= length gs)%nat) by (pose proof (ri_exp _ _ C); unfold ei, nlen in *; lia).
@@ -714,7 +707,7 @@ Proof.
     { unfold mu, idle. rewrite M, LK. reflexivity. }
     destruct C as [[E1 E2] CS CA]. pose proof (mkRcore gs r (conj E1 E2) CS CA) as C.
     unfold connect.
-    destruct (fetch_groups p gs (r_exp r) W GC E1) as [[L F]|(L & n & Hn & Hl & F)]; rewrite F.
+    destruct (fetch_groups p gs (r_exp r) W E1) as [[L F]|(L & n & Hn & Hl & F)]; rewrite F.
     + (* nothing to send: the replica is up to date *)
       set (r' := mkR RStreaming (r_link r) (r_exp r) [] (r_exp r) (r_gseq r) (r_gapp r) (r_store r)).
       assert (Hid : idle p r' = true).
@@ -751,7 +744,7 @@ Proof.
               replace (r_start r <? nlen gs) with false by (symmetry; apply N.ltb_ge; lia). reflexivity.
             - unfold idle, poll. rewrite M, EI, CUR.
               replace (r_start r <? nlen gs) with false by (symmetry; apply N.ltb_ge; lia). reflexivity. }
-        destruct (fetch_groups p gs (r_start r + 1) W GC ltac:(lia)) as [[L F]|(L & n & Hn & Hl & F)]; [lia|].
+        destruct (fetch_groups p gs (r_start r + 1) W ltac:(lia)) as [[L F]|(L & n & Hn & Hl & F)]; [lia|].
         rewrite F.
         replace (N.to_nat (r_start r + 1) - 1)%nat with (N.to_nat (r_start r)) in * by lia.
         set (i := N.to_nat (r_start r)) in *.
@@ -811,7 +804,7 @@ Proof.
            { unfold idle, r2, set_inbox. cbn [r_mode r_inbox]. rewrite M.
              destruct rest; [|reflexivity]. unfold poll. cbn [r_start]. rewrite CUR.
              apply N.ltb_lt in LT. rewrite LT.
-             destruct (fetch_groups p gs (r_start r + 1) W GC ltac:(lia)) as [[L F]|(L & n & Hn & Hl & F)]; [lia|].
+             destruct (fetch_groups p gs (r_start r + 1) W ltac:(lia)) as [[L F]|(L & n & Hn & Hl & F)]; [lia|].
              rewrite F. destruct (concat_seg_cons gs _ n GW Hn Hl) as (e0 & tl & Ees). rewrite Ees. reflexivity. }
            unfold step_ok. split.
            { split; [eapply rcore_ext; [..|exact C]; reflexivity|].
@@ -893,16 +886,16 @@ Proof.
   unfold idle in E. destruct (r_mode r); [discriminate|lia|]. destruct (r_inbox r) as [|[] ?]; lia.
 Qed.
 
-Lemma ticks_ok : forall p gs cs r, pwf p gs -> gcuts gs -> rinv gs r -> ~ stuck_last gs r ->
+Lemma ticks_ok : forall p gs cs r, pwf p gs -> rinv gs r -> ~ stuck_last gs r ->
   let r' := ticks cs p r in
   rinv gs r' /\ ~ stuck_last gs r' /\ (mu p gs r' <= mu p gs r - goods cs)%nat /\
   r_link r' = r_link r /\ (r_mode r <> RDown -> r_mode r' <> RDown).
 Proof.
-  intros p gs cs. induction cs as [|c cs IH]; intros r W GC I NS.
+  intros p gs cs. induction cs as [|c cs IH]; intros r W I NS.
   - unfold ticks, goods. cbn [fold_left filter length]. split; [exact I|]. split; [exact NS|]. split; [lia|].
     split; [reflexivity|]. intros H; exact H.
-  - destruct (tick_step p gs r c W GC I NS) as (I1 & NS1 & M1 & M2 & L1 & D1).
-    destruct (IH (tick c p r) W GC I1 NS1) as (I2 & NS2 & M3 & L2 & D2).
+  - destruct (tick_step p gs r c W I NS) as (I1 & NS1 & M1 & M2 & L1 & D1).
+    destruct (IH (tick c p r) W I1 NS1) as (I2 & NS2 & M3 & L2 & D2).
     unfold ticks in *. cbn [fold_left]. split; [exact I2|]. split; [exact NS2|].
     split.
     + unfold goods in *. cbn [filter]. destruct (is_bad c) eqn:B; cbn [negb length].
@@ -965,18 +958,18 @@ Proof.
 Qed.
 
 (* an idle, connected, not stuck replica holds the whole log *)
-Lemma idle_converged : forall p gs r, pwf p gs -> gcuts gs -> rinv gs r -> ~ stuck_last gs r ->
+Lemma idle_converged : forall p gs r, pwf p gs -> rinv gs r -> ~ stuck_last gs r ->
   r_mode r <> RDown -> r_link r = true -> idle p r = true ->
   r_exp r = nlen gs + 1 /\ views_agree p r = true.
 Proof.
-  intros p gs r W GC [C IM] NS ND LK Hid.
+  intros p gs r W [C IM] NS ND LK Hid.
   assert (E : r_exp r = nlen gs + 1).
   { unfold idle in Hid. unfold rmode_ok in IM. destruct (r_mode r) eqn:M; [congruence| |].
     - rewrite LK in Hid. discriminate.
     - destruct IM as (HS & _ & IB). destruct (r_inbox r) eqn:EI; [|discriminate].
       unfold poll in Hid. rewrite (cur_live _ _ W) in Hid.
       destruct (N.ltb_spec (r_start r) (nlen gs)) as [LT|GE].
-      + exfalso. destruct (fetch_groups p gs (r_start r + 1) W GC ltac:(lia)) as [[L F]|(L & n & Hn & Hl & F)]; [lia|].
+      + exfalso. destruct (fetch_groups p gs (r_start r + 1) W ltac:(lia)) as [[L F]|(L & n & Hn & Hl & F)]; [lia|].
         rewrite F in Hid. destruct (concat_seg_cons gs _ n (pw_gwf _ _ W) Hn Hl) as (e0 & tl & Ees).
         rewrite Ees in Hid. discriminate.
       + pose proof (ri_exp _ _ C) as [_ E2].
@@ -991,23 +984,21 @@ Qed.
 
 (* ---------- C14, proved part: bounded convergence against a primary that did not rotate ---------- *)
 Theorem converges_from_invariant : forall p gs r cs F,
-  pwf p gs -> cuts_ok (p_log p) = true -> rinv gs r -> ~ stuck_last gs r ->
+  pwf p gs -> rinv gs r -> ~ stuck_last gs r ->
   r_mode r <> RDown -> r_link r = true ->
   (bads cs <= F)%nat -> (2 * (length gs - ei r) + 3 + F <= length cs)%nat ->
   let r' := ticks cs p r in
   views_agree p r' = true /\ forall cs', ticks cs' p r' = r'.
 Proof.
-  intros p gs r cs F W CO I NS ND LK HB HL r'.
-  assert (GC : gcuts gs).
-  { apply cuts_ok_gcuts; [exact (pw_gwf _ _ W)|]. rewrite <- (pw_log _ _ W). exact CO. }
-  destruct (ticks_ok p gs cs r W GC I NS) as (I' & NS' & M' & L' & D').
+  intros p gs r cs F W I NS ND LK HB HL r'.
+  destruct (ticks_ok p gs cs r W I NS) as (I' & NS' & M' & L' & D').
   assert (MB : (mu p gs r <= 2 * (length gs - ei r) + 3)%nat).
   { unfold mu, dist. destruct (idle p r); [lia|]. destruct (r_mode r); [lia|lia|].
     destruct (r_inbox r) as [|[] ?]; lia. }
   pose proof (goods_bads cs) as GB.
   assert (Z : mu p gs (ticks cs p r) = O) by lia.
   apply mu_zero_idle in Z. fold r' in Z, I', NS', L', D'.
-  destruct (idle_converged p gs r' W GC I' NS' (D' ND) ltac:(congruence) Z) as [_ V].
+  destruct (idle_converged p gs r' W I' NS' (D' ND) ltac:(congruence) Z) as [_ V].
   split; [exact V|]. intros cs'. apply idle_ticks. exact Z.
 Qed.
 
@@ -1106,10 +1097,10 @@ Proof.
   - apply (IB_init _ _ _ n); rewrite ?E, ?A, ?B; assumption.
 Qed.
 
-Lemma step_inv : forall p r gs e, pwf p gs -> rinv gs r -> gcuts gs -> noflush e ->
+Lemma step_inv : forall p r gs e, pwf p gs -> rinv gs r -> noflush e ->
   exists more, pwf (fst (step (p, r) e)) (gs ++ more) /\ rinv (gs ++ more) (snd (step (p, r) e)).
 Proof.
-  intros p r gs e W [C IM] GC NF. pose proof (conj C IM : rinv gs r) as I.
+  intros p r gs e W [C IM] NF. pose proof (conj C IM : rinv gs r) as I.
   destruct e as [w| |c| | | |]; cbn [step fst snd].
   - (* write *)
     destruct (is_noop w) eqn:NW.
@@ -1137,7 +1128,7 @@ Proof.
     + assert (NS : ~ stuck_last gs r).
       { intros (M & EI & S1 & _). unfold idle in Hid. rewrite M, EI in Hid. unfold poll in Hid.
         rewrite (cur_live _ _ W), S1, N.ltb_irrefl in Hid. discriminate. }
-      destruct (tick_step p gs r c W GC I NS) as (I1 & _). exact I1.
+      destruct (tick_step p gs r c W I NS) as (I1 & _). exact I1.
   - (* start *)
     exists []. rewrite app_nil_r. split; [exact W|]. destruct (r_mode r) eqn:M; try exact I.
     split; [|reflexivity]. destruct C as [[E1 E2] (old & ES & EI) IA]. constructor; cbn.
@@ -1161,52 +1152,13 @@ Proof.
     split; [exact HS|]. split; [reflexivity|]. eapply inbox_ok_ext; [..|exact IB]; reflexivity.
 Qed.
 
-Lemma cut_cond_app : forall k X Y, cut_cond k (X ++ Y) -> cut_cond k X.
-Proof.
-  intros k X Y H. unfold cut_cond in *.
-  destruct (nth_error X (k - 1)) as [x|] eqn:E1; [|exact I].
-  destruct (nth_error X k) as [y|] eqn:E2; [|exact I].
-  rewrite (nth_error_app1 X Y) in H by (apply nth_error_Some; congruence).
-  rewrite (nth_error_app1 X Y) in H by (apply nth_error_Some; congruence).
-  rewrite E1, E2 in H. exact H.
-Qed.
-
-Lemma gcuts_prefix : forall gs more, gcuts (gs ++ more) -> gcuts gs.
-Proof.
-  intros gs more H i Hi. specialize (H i ltac:(rewrite app_length; lia)).
-  rewrite skipn_app, concat_app in H. apply cut_cond_app in H. exact H.
-Qed.
-
-Lemma run_grows : forall evs p r gs, Forall noflush evs -> pwf p gs ->
-  exists more, pwf (fst (run evs (p, r))) (gs ++ more).
-Proof.
-  induction evs as [|e evs IH]; intros p r gs NF W.
-  - exists []. rewrite app_nil_r. exact W.
-  - pose proof (Forall_inv NF) as NF1. pose proof (Forall_inv_tail NF) as NF2.
-    assert (S1 : exists more, pwf (fst (step (p, r) e)) (gs ++ more)).
-    { destruct e as [w| |c| | | |]; cbn [step fst];
-        try (exists []; rewrite app_nil_r; exact W).
-      - destruct (is_noop w) eqn:NW; [exists []; rewrite app_nil_r; exact W|].
-        exists [entries_of (p_next p) w]. cbn [fst]. apply pwf_write; assumption.
-      - exfalso. apply NF1. reflexivity. }
-    destruct S1 as (m1 & W1). unfold run. cbn [fold_left].
-    destruct (step (p, r) e) as [p1 r1] eqn:ES. cbn [fst] in W1.
-    destruct (IH p1 r1 (gs ++ m1) NF2 W1) as (m2 & W2). exists (m1 ++ m2).
-    rewrite app_assoc. exact W2.
-Qed.
-
 Lemma run_inv : forall evs p r gs, Forall noflush evs -> pwf p gs -> rinv gs r ->
-  cuts_ok (p_log (fst (run evs (p, r)))) = true ->
   exists gs', pwf (fst (run evs (p, r))) gs' /\ rinv gs' (snd (run evs (p, r))).
 Proof.
-  induction evs as [|e evs IH]; intros p r gs NF W I CO.
+  induction evs as [|e evs IH]; intros p r gs NF W I.
   - exists gs. split; assumption.
   - pose proof (Forall_inv NF) as NF1. pose proof (Forall_inv_tail NF) as NF2.
-    assert (GC : gcuts gs).
-    { destruct (run_grows (e :: evs) p r gs NF W) as (more & Wf).
-      apply (gcuts_prefix gs more). apply cuts_ok_gcuts; [exact (pw_gwf _ _ Wf)|].
-      rewrite <- (pw_log _ _ Wf). exact CO. }
-    destruct (step_inv p r gs e W I GC NF1) as (m1 & W1 & I1).
+    destruct (step_inv p r gs e W I NF1) as (m1 & W1 & I1).
     unfold run in *. cbn [fold_left] in *.
     destruct (step (p, r) e) as [p1 r1] eqn:ES. cbn [fst snd] in W1, I1.
     apply (IH p1 r1 (gs ++ m1)); assumption.
@@ -1216,9 +1168,9 @@ Qed.
 Definition last_write_unsent (p : pstate) (r : rstate) : Prop :=
   r_mode r = RStreaming /\ r_inbox r = [] /\ r_start r = cur p /\ r_exp r = cur p.
 
-(* C14, the part that holds: any history without a log rotation on the primary whose log has no
-   transaction cut by the response limit, ending in a state where the replica is running, the
-   link is up and the last write is not the one numbered like the session start: within
+(* C14, the part that holds: any history without a log rotation on the primary, ending in a
+   state where the replica is running, the link is up and the last write is not the one numbered
+   like the session start: within
    2*(entries the replica lacks, in sequence numbers)+3 rounds plus the number of rounds in which
    a delivery was swallowed or side-lined, the replica's data equals the primary's, and no
    later round changes the replica. *)
@@ -1226,15 +1178,14 @@ Theorem converges_partial : forall evs cs F,
   Forall noflush evs ->
   let p := fst (run evs sys_init) in
   let r := snd (run evs sys_init) in
-  cuts_ok (p_log p) = true ->
   r_mode r <> RDown -> r_link r = true -> ~ last_write_unsent p r ->
   (bads cs <= F)%nat ->
   (2 * N.to_nat (p_next p - r_exp r) + 3 + F <= length cs)%nat ->
   views_agree p (ticks cs p r) = true /\
   forall cs', ticks cs' p (ticks cs p r) = ticks cs p r.
 Proof.
-  intros evs cs F NF p r CO ND LK NS HB HL.
-  destruct (run_inv evs p_init r_init [] NF pwf_init rinv_init CO) as (gs & W & I).
+  intros evs cs F NF p r ND LK NS HB HL.
+  destruct (run_inv evs p_init r_init [] NF pwf_init rinv_init) as (gs & W & I).
   fold sys_init in W, I. fold p in W. fold r in I.
   assert (NS' : ~ stuck_last gs r).
   { intros (A & B & C & D). apply NS. unfold last_write_unsent. rewrite (cur_live _ _ W). tauto. }
@@ -1257,11 +1208,11 @@ Definition ex_history : list event :=
 Example converges_partial_applies :
   let p := fst (run ex_history sys_init) in
   let r := snd (run ex_history sys_init) in
-  Forall noflush ex_history /\ cuts_ok (p_log p) = true /\ r_mode r <> RDown /\ r_link r = true /\
+  Forall noflush ex_history /\ r_mode r <> RDown /\ r_link r = true /\
   ~ last_write_unsent p r /\ views_agree p r = false /\
   views_agree p (ticks (repeat good 20) p r) = true.
 Proof.
-  split; [repeat constructor; discriminate|]. split; [vm_compute; reflexivity|].
+  split; [repeat constructor; discriminate|].
   split; [vm_compute; discriminate|]. split; [vm_compute; reflexivity|].
   split; [intros (A & _); vm_compute in A; discriminate|].
   split; vm_compute; reflexivity.
@@ -1283,11 +1234,10 @@ Definition w_rotation : list event :=
 Theorem rotation_refuted :
   let p := fst (run w_rotation sys_init) in
   let r := snd (run w_rotation sys_init) in
-  connected r /\ cuts_ok (p_log p) = true /\ ~ last_write_unsent p r /\
+  connected r /\ ~ last_write_unsent p r /\
   forall cs, views_agree p (ticks cs p r) = false.
 Proof.
   split; [split; [vm_compute; discriminate|vm_compute; reflexivity]|].
-  split; [vm_compute; reflexivity|].
   split; [intros (_ & _ & A & _); vm_compute in A; discriminate|].
   apply stuck_forever; vm_compute; reflexivity.
 Qed.
@@ -1328,37 +1278,42 @@ Definition w_last_write : list event := [EStart; ETick good; put1 107 118].
 Theorem last_write_refuted :
   let p := fst (run w_last_write sys_init) in
   let r := snd (run w_last_write sys_init) in
-  connected r /\ Forall noflush w_last_write /\ cuts_ok (p_log p) = true /\
+  connected r /\ Forall noflush w_last_write /\
   last_write_unsent p r /\ forall cs, views_agree p (ticks cs p r) = false.
 Proof.
   split; [split; [vm_compute; discriminate|vm_compute; reflexivity]|].
-  split; [repeat constructor; discriminate|]. split; [vm_compute; reflexivity|].
+  split; [repeat constructor; discriminate|].
   split; [vm_compute; repeat split; reflexivity|].
   apply stuck_forever; vm_compute; reflexivity.
 Qed.
 
-(* D18e: 99 single writes, then a transaction of two entries, then one more write; the
-   replica joins afterwards.  The first response carries 100 entries and ends inside the
-   transaction; the replica applies them, moves on to the next number and never gets the
-   transaction's second entry *)
+(* ---------- BeforeFixes: regression notes on defects that were repaired ---------- *)
+(* D18e (repaired by f62340e): 99 single writes, then a transaction of two entries, then one more
+   write; the replica joins afterwards.  With the plain 100-entry cut (cut_fetch_old) the first
+   response ended inside the transaction: the replica applied its first entry, moved on to the
+   next number and never got the second one.  With the repaired cut the history converges. *)
 Definition puts (n : nat) : list event := map (fun i => put1 (N.of_nat i) 1) (seq 1 n).
 Definition w_tx_cut : list event :=
   puts 99 ++ [tx2 200 1 201 2; put1 250 9; EStart] ++ tgood 8.
 
-Theorem tx_cut_refuted :
+Example tx_cut_old_response_was_torn :
+  let p := fst (run w_tx_cut sys_init) in
+  map eseq (skipn 98 (cut_fetch_old (from_seq 1 (p_log p)))) = [99; 100] /\
+  map eseq (skipn 98 (cut_fetch (from_seq 1 (p_log p)))) = [99; 100; 100].
+Proof. split; vm_compute; reflexivity. Qed.
+
+Example tx_cut_now_converges :
   let p := fst (run w_tx_cut sys_init) in
   let r := snd (run w_tx_cut sys_init) in
-  connected r /\ Forall noflush w_tx_cut /\ cuts_ok (p_log p) = false /\ ~ last_write_unsent p r /\
-  view_get (r_store r) [200] = Some [1] /\ view_get (r_store r) [201] = None /\
-  forall cs, views_agree p (ticks cs p r) = false.
+  connected r /\ Forall noflush w_tx_cut /\ ~ last_write_unsent p r /\
+  view_get (r_store r) [200] = Some [1] /\ view_get (r_store r) [201] = Some [2] /\
+  views_agree p r = true.
 Proof.
   split; [split; [vm_compute; discriminate|vm_compute; reflexivity]|].
   split; [apply Forall_forall; intros e He; vm_compute in He;
           repeat (destruct He as [<-|He]; [discriminate|]); contradiction|].
-  split; [vm_compute; reflexivity|].
   split; [intros (_ & _ & A & _); vm_compute in A; discriminate|].
-  split; [vm_compute; reflexivity|]. split; [vm_compute; reflexivity|].
-  apply stuck_forever; vm_compute; reflexivity.
+  split; [vm_compute; reflexivity|]. split; vm_compute; reflexivity.
 Qed.
 
 (* ---------- the property at full strength, and why it is only partially proved ---------- *)
@@ -1373,7 +1328,7 @@ Definition converges_statement : Prop :=
 
 Theorem converges_statement_refuted : ~ converges_statement.
 Proof.
-  intros H. destruct last_write_refuted as (C & _ & _ & _ & V).
+  intros H. destruct last_write_refuted as (C & _ & _ & V).
   destruct (H w_last_write C 0%nat) as (b & Hb).
   assert (B0 : bads (repeat good b) = 0%nat).
   { clear. induction b as [|b IH]; [reflexivity|]. exact IH. }
